@@ -48,7 +48,7 @@ impl<'a> StateMachine<'a> {
     //@ region src/delta.rs StateMachine::consume
     //@sig pub fn consume_line_prologue(&mut self, raw_line_bytes: &[u8]) -> (r: std::io::Result<()>)
     //@from <<<self.ingest_line(raw_line_bytes);>>>
-    //@until <<<// Every method named handle_* must return std::io::Result<bool>.>>>
+    //@until <<<let _ = self.handle_commit_meta_header_line()?>>>
     //@tail Ok(())
     //@| requires sm_wf(old(self)),
     //@| ensures old(self).source == Source::Unknown && final(self).source == Source::DiffUnified ==> counter_armed(&final(self).minus_line_counter),  // @C01,C10:in.a.plain.unified.diff.the.disambiguation.of.three.dash.lines.is.switched.on.whatever.its.first.line.is
